@@ -511,9 +511,33 @@ func c01Known(ci any, res Result, modelObs string) string {
 	if strings.HasPrefix(res.Obs, "D ") && res.Oracle != "" {
 		var hid int
 		fmt.Sscanf(res.Obs, "D %d", &hid)
+		// F3 is about the VALUES the not-found handler sees (blanked by the backtracking).  The pattern and the parameter
+		// names it sees must still be its own: anything else in that situation is not F3 and is reported.
+		f := strings.Fields(res.Obs)
+		if hid >= 0 && hid < len(c.Routes) && len(f) >= 4 {
+			_, names, _ := rNorm(c.Routes[hid].Path)
+			own := wJoin(wStr(normSlash(c.Routes[hid].Path)), wStrs(names))
+			hi := 2 + 1 + 1 + len(names)
+			if hi > len(f) {
+				hi = len(f)
+			}
+			if got := strings.Join(f[2:hi], " "); got != own {
+				return ""
+			}
+		}
 		return c01KnownF3(c.Routes, c.Req, rObs{Kind: 'D', Hid: hid})
 	}
 	return ""
+}
+
+func normSlash(p string) string {
+	if p == "" {
+		return "/"
+	}
+	if p[0] != '/' {
+		return "/" + p
+	}
+	return p
 }
 
 func c01KnownF3(routes []rRoute, q rReq, o rObs) string {
